@@ -81,10 +81,20 @@ KEYS = ["idp_sign", "idp_sign2", "idp_enc", "member2", "sp", "attacker"]
 ALLKEYS = KEYS + ["idp2", "sp2", "sp_enc1", "sp_enc2"]
 # every kind is one signed item `m` (issuer, signer, keyinfo of the case) travelling in some way; the nested
 # kinds additionally have a first item `first` (default: issued by the other member M, signed with member2)
-KINDS = ["response", "assertion", "enc_assertion", "plain_plus_enc", "advice_enc", "logout_resp_post",
-         "authn_post", "logout_post", "logout_soap", "redirect", "logout_redirect"]
-NESTED = ("plain_plus_enc", "advice_enc", "advice_plain")   # advice_plain: only `first` is ever verified
+KINDS = ["response", "assertion", "enc_assertion", "resp_assertion", "resp_enc_assertion", "plain_plus_enc", "advice_enc",
+         "logout_resp_post", "authn_post", "logout_post", "logout_soap", "redirect", "logout_redirect"]
+# nested kinds, (outer signed element `first`, inner signed element `m`): resp_assertion = (Response, plain Assertion),
+# resp_enc_assertion = (Response, EncryptedAssertion), plain_plus_enc = (plain Assertion, EncryptedAssertion next to
+# it), advice_enc = (Assertion, encrypted Advice assertion), advice_plain = (Assertion, plain Advice assertion: only
+# `first` is ever verified)
+RESP_OUTER = ("resp_assertion", "resp_enc_assertion")
+NESTED = RESP_OUTER + ("plain_plus_enc", "advice_enc", "advice_plain")
 ASSERTION_LIKE = ("assertion", "enc_assertion") + NESTED
+IDP_RECEIVES = ("authn_post", "redirect", "logout_redirect")
+# forms a configuration value is written in and that the unchanged code reads consistently with their meaning
+# ("False"/"TRUE"/"no" ... stay truthy strings and are NOT among them)
+FORMS_ON = [True, "true", 1]
+FORMS_OFF = [False, "false", 0, ""]
 SP_RECEIVES = ("response", "logout_resp_post", "logout_post", "logout_soap") + ASSERTION_LIKE
 DETACHED = ("redirect", "logout_redirect")
 OWN = "sp"   # the receiver's own key in every configuration below
@@ -260,9 +270,13 @@ def role_for(kind):
     return "idpsso" if kind in SP_RECEIVES else "spsso"
 
 
-def mk(kind, md, only, issuer, signer, ki, first=None):
-    """one case; certificate kinds of the non-RSA certificates the metadata mentions travel with the case"""
+def mk(kind, md, only, issuer, signer, ki, first=None, **cfg):
+    """one case; certificate kinds of the non-RSA certificates the metadata mentions travel with the case.
+    cfg: ovc_form / must_form (IdP receivers), want_form (SP receivers), cfg_class="generic" """
     c = {"kind": kind, "md": md, "only_md": only, "issuer": issuer, "signer": signer, "keyinfo": ki}
+    if kind in IDP_RECEIVES:
+        c["must_form"] = cfg.pop("must_form", True)
+    c.update(cfg)
     kinds = {n: CERT_KINDS[n] for e in md["entities"] for r in e["roles"] for k in r["keys"]
              for n in (k["certs"] or []) if n and n in CERT_KINDS}
     if kinds:
@@ -473,6 +487,37 @@ def reload_cases(kind):
             yield c
 
 
+def form_cases(kind, quick):
+    """the options that reach key selection or the acceptance tail, in every written form, for both configuration
+    classes: want_authn_requests_only_with_valid_cert / want_authn_requests_signed (IdP), only_use_keys_in_metadata,
+    want_response_signed / want_assertions_signed (SP)"""
+    md = fixed_md(role_for(kind))
+    e_id, m_id, u_id = ids_for(kind)
+    probes = [(e_id, "attacker", NO_KI), (e_id, "idp_sign2", NO_KI), (e_id, None, NO_KI),
+              (u_id, "attacker", {"certs": ["attacker"], "rsa": None}), (e_id, OWN, {"certs": [OWN], "rsa": None})]
+    classes = ({}, {"cfg_class": "generic"})
+    if kind in IDP_RECEIVES:
+        for f in FORMS_ON + FORMS_OFF:
+            for cls in classes:
+                for only in (True, False):
+                    for iss, signer, ki in probes[:4] if quick else probes:
+                        yield mk(kind, md, only, iss, signer, ki, ovc_form=f, **cls)
+        for f in FORMS_ON[1:] + FORMS_OFF:
+            for cls in classes:
+                for iss, signer, ki in probes[:3]:
+                    yield mk(kind, md, True, iss, signer, ki, must_form=f, **cls)
+                    yield mk(kind, md, True, iss, signer, {"certs": [signer or "attacker"], "rsa": None}, must_form=f, **cls)
+    else:
+        for f in FORMS_ON + FORMS_OFF:
+            for cls in classes:
+                for iss, signer, ki in probes[:2] + probes[3:4]:
+                    yield mk(kind, md, False, iss, signer, ki, want_form=f, **cls)
+    for f in FORMS_ON[1:] + FORMS_OFF[1:]:
+        for cls in classes:
+            for iss, signer, ki in probes[1:2] + probes[3:]:
+                yield mk(kind, md, f, iss, signer, ki, **cls)
+
+
 def gen_cases(rng, tier):
     quick = tier == "quick"
     # 1. the quantifier's product, completely (both tiers), for every kind
@@ -498,7 +543,11 @@ def gen_cases(rng, tier):
     for kind in KINDS:
         for c in reload_cases(kind):
             yield c
-    # 7. random metadata shapes
+    # 7. written forms of the options, both configuration classes
+    for kind in KINDS:
+        for c in form_cases(kind, quick):
+            yield c
+    # 8. random metadata shapes
     n_md, per = (40, 12) if quick else (400, 20)
     for c in random_cases(rng, n_md, per):
         yield c
@@ -507,10 +556,12 @@ def gen_cases(rng, tier):
 # ------------------------------------------------------------------ receivers
 
 
-def _receiver(kind, md, only_md, stale=None):
+def _receiver(case):
+    kind, md, only_md, stale = case["kind"], case["md"], case["only_md"], case.get("stale")
     sp_side = kind in SP_RECEIVES
-    group = "response" if kind == "response" else "assertion" if kind in ASSERTION_LIKE else ""
-    key = (sp_side, group, json.dumps(md, sort_keys=True), only_md, json.dumps(stale, sort_keys=True))
+    group = "response" if (kind == "response" or kind in RESP_OUTER) else "assertion" if kind in ASSERTION_LIKE else ""
+    forms = [case.get(k, "-") for k in ("ovc_form", "must_form", "want_form", "cfg_class")]
+    key = json.dumps([sp_side, group, md, only_md, stale, forms], sort_keys=True)
     if key in _state:
         return _state[key]
     if len(_state) > 64:
@@ -520,20 +571,31 @@ def _receiver(kind, md, only_md, stale=None):
         extra["only_use_keys_in_metadata"] = only_md
     if sp_side:
         spx = {}
+        want = case.get("want_form", True)
         if group == "response":
-            spx = {"want_response_signed": True, "want_assertions_signed": False}
+            spx = {"want_response_signed": want, "want_assertions_signed": False}
         elif group == "assertion":
-            spx = {"want_response_signed": False, "want_assertions_signed": True}
+            spx = {"want_response_signed": False, "want_assertions_signed": want}
         conf = S.sp_config(sp=spx, **extra)   # own key: sp; decryption key: sp_enc1
-        make = S.make_sp
     else:
-        conf = S.idp_config(idp={"want_authn_requests_signed": True}, key_file=S.key_path(OWN), cert_file=S.cert_path(OWN), **extra)
-        make = S.make_idp
+        idpx = {"want_authn_requests_signed": case.get("must_form", True)}
+        if "ovc_form" in case:
+            idpx["want_authn_requests_only_with_valid_cert"] = case["ovc_form"]
+        conf = S.idp_config(idp=idpx, key_file=S.key_path(OWN), cert_file=S.cert_path(OWN), **extra)
     if md["configured"]:
         conf["metadata"] = {"inline": [md_xml(md)] + ([md_xml(stale)] if stale else [])}
     else:
         del conf["metadata"]
-    rcv = make(conf)
+    if case.get("cfg_class") == "generic":
+        from saml2.client import Saml2Client
+        from saml2.config import Config
+        from saml2.server import Server
+
+        cfg = Config()
+        cfg.load(conf)
+        rcv = (Saml2Client if sp_side else Server)(config=cfg)
+    else:
+        rcv = (S.make_sp if sp_side else S.make_idp)(conf)
     if stale:
         # the new configuration lists the first source only
         if not rcv.reload_metadata({"inline": [md_xml(md)]}):
@@ -683,6 +745,21 @@ def _build_assertion_like(case):
         text = _sign_text(str(resp), a, signer)
         return _encrypt(text, "Response", "EncryptedAssertion", "Assertion")
     first = case["first"]
+    if kind in RESP_OUTER:
+        # outer signed element: the Response (issuer/key of `first`); inner: its assertion `m`, plain or encrypted
+        _set_issuer(resp, first["issuer"])
+        _set_issuer(a, issuer)
+        _template(resp, first["keyinfo"], 1)
+        _template(a, ki, 2)
+        if kind == "resp_enc_assertion":
+            ea = saml.EncryptedAssertion()
+            ea.add_extension_element(a)
+            resp.assertion = []
+            resp.encrypted_assertion = [ea]
+        text = _sign_text(str(resp), a, signer)
+        if kind == "resp_enc_assertion":
+            text = _encrypt(text, "Response", "EncryptedAssertion", "Assertion")
+        return _sign_text(text, resp, first["signer"])
     _set_issuer(resp, first["issuer"])
     _set_issuer(a, first["issuer"])
     b = copy.deepcopy(a)
@@ -774,7 +851,7 @@ def run_impl(case):
     from saml2 import SAMLError
 
     kind = case["kind"]
-    rcv = _receiver(kind, case["md"], case["only_md"], case.get("stale"))
+    rcv = _receiver(case)
     m = build_message(case)
     del X.LOG[:]
     _rx["handed"] = []
